@@ -63,6 +63,7 @@ static uint64_t sm64(void) {
 
 #include <pthread.h>
 #include <sys/resource.h>
+#include <execinfo.h>
 static pthread_t main_thread;
 static pthread_mutex_t hook_mu = PTHREAD_MUTEX_INITIALIZER;
 static int opt_workers = 1;           /* C01_WORKERS=0: worker threads keep the default schedule and are not checked */
@@ -795,6 +796,31 @@ static void symcache_check(void) {
 }
 
 static void midpoint_body(int worker);
+
+/* The C call stack at this collection (return addresses; resolved to function names by the check with the executable's
+ * symbol table).  Dynamic tie of the static call-graph certificate (tools/gen/gcroot.py, Props/C01 nocollect_sound): every
+ * library function found on the stack while janet_collect runs must be one the regenerated graph says can reach
+ * janet_collect.  Distinct stacks only. */
+#define MAX_STACKS 1024
+static uint64_t stack_hashes[MAX_STACKS];
+static int n_stacks = 0;
+static long n_stack_samples = 0, n_stack_overflow = 0;
+static void record_stack(void) {
+    void *buf[200];
+    int n = backtrace(buf, 200);
+    uint64_t h = 1469598103934665603ULL;
+    for (int i = 0; i < n; i++) h = (h ^ (uint64_t)(uintptr_t) buf[i]) * 1099511628211ULL;
+    n_stack_samples++;
+    for (int i = 0; i < n_stacks; i++) if (stack_hashes[i] == h) return;
+    if (n_stacks == MAX_STACKS) { n_stack_overflow++; return; }
+    stack_hashes[n_stacks++] = h;
+    if (!report) return;
+    fprintf(report, "STACK collect=%p", (void *)(uintptr_t) &janet_collect);
+    for (int i = 0; i < n; i++) fprintf(report, " %p", buf[i]);
+    fprintf(report, "\n");
+    fflush(report);
+}
+
 static void midpoint_hook(void) {
     int worker = !pthread_equal(pthread_self(), main_thread);
     if (worker && !opt_workers) return;
@@ -802,6 +828,7 @@ static void midpoint_hook(void) {
     if (worker) __atomic_add_fetch(&w_collect, 1, __ATOMIC_RELAXED);
     if (!opt_graph) return;
     pthread_mutex_lock(&hook_mu);
+    record_stack();
     long f0 = n_findings;
     midpoint_body(worker);
     if (worker) { w_checked++; w_findings += n_findings - f0; }
@@ -1052,7 +1079,7 @@ static void at_exit_report(void) {
         long ms = 0;
         if (!getrusage(RUSAGE_SELF, &ru))
             ms = (long)(ru.ru_utime.tv_sec + ru.ru_stime.tv_sec) * 1000 + (long)(ru.ru_utime.tv_usec + ru.ru_stime.tv_usec) / 1000;
-        fprintf(report, "SUMMARY cpu_ms=%ld user_safepoints=%ld\n", ms, n_user_safepoints);
+        fprintf(report, "SUMMARY cpu_ms=%ld user_safepoints=%ld stack_samples=%ld stacks_distinct=%d stacks_dropped=%ld\n", ms, n_user_safepoints, n_stack_samples, n_stacks, n_stack_overflow);
     }
     fprintf(report, "SUMMARY collections=%ld forced=%ld safepoints=%ld checked=%ld max_nodes=%ld nodes=%ld edges=%ld freed=%ld findings=%ld opaque_collections=%ld dumps=%ld pending_streams=%ld"
             " sym_probes=%ld sym_wrapped=%ld sym_through_tomb=%ld sym_freed=%ld sym_last_freed=%ld sym_last_freed_chain=%ld sym_cap_max=%ld sym_count_max=%ld sym_skipped=%ld"
